@@ -238,12 +238,12 @@ Proof.
     + intros pk id' X. rewrite upd_length. eapply sim_bag; eauto.
     + intros pk id' h' X1 X2.
       destruct (sim_own _ _ H pk id' h' X1 X2) as [c' B].
-      exists c'. destruct (Nat.eq_dec h h').
+      exists c'. simpl. destruct (Nat.eq_dec h h').
       * subst h'. rewrite SH in B. discriminate.
       * rewrite upd_nth_error_other; auto.
     + intros h1 h2 id' N X1 X2.
       destruct (sim_uniq _ _ H h1 h2 id' N X1 X2) as [c' B].
-      exists c'. destruct (Nat.eq_dec h h1).
+      exists c'. simpl. destruct (Nat.eq_dec h h1).
       * subst h1. rewrite SH in B. discriminate.
       * rewrite upd_nth_error_other; auto.
   - (* put *)
@@ -334,9 +334,9 @@ Lemma spec_reads : forall proj full s k pk, proj k = Some pk ->
    snd (spec_step proj full s (OGetStream k)) = match lookup pk (s_map s) with Some c => OBytes c | None => OErr E404 end /\
    snd (spec_step proj full s (OPeek k)) = match lookup pk (s_map s) with Some c => OBytes c | None => OErr E404 end).
 Proof.
-  intros. simpl. rewrite H. split.
-  - destruct (lookup pk (s_map s)); auto.
-  - intros F. subst full. rewrite H. destruct (lookup pk (s_map s)); auto.
+  intros. split.
+  - simpl. rewrite H. destruct (lookup pk (s_map s)); auto.
+  - intros F. subst full. simpl. rewrite H. destruct (lookup pk (s_map s)); auto.
 Qed.
 
 (* keys that differ never alias: a put changes the answer for its own (projected) key only *)
